@@ -841,7 +841,8 @@ def c19_scripts(L, rnd, tier):
                 sc.binfile(1, path + ".bin")
                 out.append(sc)
     # missing path, directory
-    for bad in (os.path.join(d, "does-not-exist.asm"), d, "/proc/self/nonexistent/x.asm"):
+    # (directories: one whose size is not zero, so that read() fails, and /proc, /proc/self, whose reported size is zero)
+    for bad in (os.path.join(d, "does-not-exist.asm"), d, "/proc/self/nonexistent/x.asm", "/proc", "/proc/self", "/"):
         for cnt in (None, 8):
             sc = Script("C19-bad%d" % n); n += 1
             sc.create(1, "ext", 200)
